@@ -56,6 +56,10 @@ def state_desc(rng, state, unique=None, n_files=None, exact=False):
         d["files"] = [fd_small(rng, "cas", unique) for _ in range(n_files if n_files is not None else rng.randint(1, 3))]
     elif state in ("tool_dsk", "peer_dsk"):
         d["files"] = [fd_small(rng, "dsk", unique) for _ in range(n_files if n_files is not None else rng.randint(1, 3))]
+        if state == "peer_dsk" and n_files is None and rng.chance(0.35):
+            d["files"].append(fd_small(rng, "dsk", unique))
+            d["files"].append(fd_small(rng, "dsk", unique))
+            d["kill"] = [rng.below(4) for _ in range(rng.randint(1, 2))]
     elif state == "big_cas":
         c = rng.choice(["zeros", "ff", "counter", "zeros"])
         d["files"] = []
@@ -78,6 +82,13 @@ def state_desc(rng, state, unique=None, n_files=None, exact=False):
         d["len"] = rng.choice([1, 6, 300, 5000, 161279, 161281]) if rng.chance(0.3) else rng.randint(1, 2000)
         d["text"] = state == "arbitrary" and rng.chance(0.5)
     return d
+
+
+def tilde_setup(rng, name, unique):
+    """A target spelled ~/name: the tool takes it literally (a directory called '~' under the working directory);
+    the file of the same name in the simulated home directory is somebody else's and must stay as it is."""
+    return [{"op": "setup", "path": "~/.keep", "state": "raw", "seed": 1, "len": 1},
+            {"op": "setup", "path": "home/user/" + name, **state_desc(rng, rng.choice(["tool_cas", "peer_cas", "tool_dsk", "raw"]), unique)}]
 
 
 class HostProp(object):
@@ -210,6 +221,9 @@ class C10(HostProp):
         paths = ["t%d%s" % (i, rng.choice(list(EXT.values()) + [""])) for i in range(rng.randint(1, 3))]
         ops = []
         unique = set()
+        if rng.chance(0.12):
+            paths[0] = "~/" + paths[0]
+            ops.extend(tilde_setup(rng, paths[0][2:], unique))
         for p in paths:
             if rng.chance(0.7):
                 st = rng.choice(STATES[:8] + ["peer_cas_hibit"])
@@ -227,9 +241,15 @@ class C10(HostProp):
                     if other != sw and rng.chance(0.4):
                         inv[other] = rng.choice(paths)
                 if len({inv.get(k) for k in KINDS if inv.get(k)}) < len([k for k in KINDS if inv.get(k)]):
-                    for other in KINDS:
-                        if other != sw:
-                            inv.pop(other, None)
+                    # the same host file named for two switches: keep it sometimes, spelled differently
+                    if rng.chance(0.5):
+                        for other in KINDS:
+                            if other != sw:
+                                inv.pop(other, None)
+                    else:
+                        for other in KINDS:
+                            if other != sw and inv.get(other) == inv.get(sw) and not inv[other].startswith("~"):
+                                inv[other] = "./" + inv[other]
             if not fault_used and rng.chance(0.2):
                 inv["read_error"] = p
                 inv["errno"] = rng.choice(["EACCES", "EIO"])
@@ -289,6 +309,10 @@ class C09(HostProp):
         for i in range(rng.randint(1, 3)):
             kind = rng.choice(["cas", "dsk"])
             paths.append(("p%d%s" % (i, rng.choice([EXT[kind], ""])), kind))
+        if rng.chance(0.1):
+            nm, kind = paths[0]
+            paths[0] = ("~/" + nm, kind)
+            ops.extend(tilde_setup(rng, nm, unique))
         for p, kind in paths:
             if profile == "mixed" and rng.chance(0.5):
                 st = rng.choice(["tool_" + kind, "peer_" + kind, "empty"] if kind == "cas" else ["tool_" + kind, "peer_" + kind])
@@ -323,9 +347,16 @@ class C09(HostProp):
             while name.upper()[:8].ljust(8) in unique:
                 name = GF.name(rng)
             unique.add(name.upper()[:8].ljust(8))
-            return {"op": "asm", "lines": small_program(rng, name=name, org=rng.choice([None, 0x0E00, 0x3F00, 0xF000]),
-                                                        size=rng.choice([None, None, 255, 2294, 2299, 4603, 5000]), nam=rng.chance(0.5)),
-                    "name": name, kind: path, "append": append}
+            op = {"op": "asm", "lines": small_program(rng, name=name, org=rng.choice([None, 0x0E00, 0x3F00, 0xF000]),
+                                                      size=rng.choice([None, None, 255, 2294, 2299, 4603, 5000]), nam=rng.chance(0.5)),
+                  "name": name, kind: path, "append": append}
+            if rng.chance(0.25):
+                # more output switches in the same invocation, onto fresh side paths: each target is judged on its own, so
+                # a refusal of one must not keep the others from being written
+                for other in KINDS:
+                    if other != kind and rng.chance(0.6):
+                        op[other] = "side%d%s" % (rng.below(3), EXT[other])
+            return op
         if how == "vf":
             return {"op": "vf", "path": path, "kind": kind, "append": append,
                     "files": [fd_small(rng, kind, unique) for _ in range(rng.randint(1, 3))]}
@@ -371,6 +402,12 @@ class C11(HostProp):
         if org is not None and size is not None and org + size > 65535:
             size = max(1, 65535 - org - 8)
         lines = small_program(rng, name=nam, org=org, size=size, end_label=rng.choice([True, False, None]), nam=nam is not None)
+        if rng.chance(0.12):
+            # the END operand is a symbol defined by EQU (its value need not be the address of the EQU line)
+            lines = [l for l in lines if not l.startswith(" END")]
+            val = rng.choice([(org or 0) + 2, 0x3F02, 0x1234])
+            lines.insert(rng.randint(0, len(lines)), "ENTRY EQU $%X\n" % val)
+            lines.append(" END ENTRY\n")
         inv = {"op": "asm", "lines": lines, "name": cli_name, "print": rng.chance(0.2), "symbols": rng.chance(0.2)}
         switches = [k for k in KINDS if rng.chance(0.5)] or [rng.choice(KINDS)]
         unique = set()
@@ -424,8 +461,16 @@ class C16(HostProp):
         n = rng.weighted([(1, 3), (2, 3), (3, 3), (5, 1)])
         src = "src" + rng.choice([EXT[skind], ""])
         sd = state_desc(rng, state, unique, n_files=n)
-        ops = [{"op": "setup", "path": src, **sd}]
         names = [fd["name"] for fd in sd["files"]]
+        if state == "peer_dsk" and rng.chance(0.4):
+            sd["files"].append(fd_small(rng, "dsk", unique))
+            sd["files"].append(fd_small(rng, "dsk", unique))
+            sd["kill"] = [rng.below(4) for _ in range(rng.randint(1, 2))]
+            names = [fd["name"] for fd in sd["files"]]
+            for victim in sd["kill"]:
+                if len(names) > 1:
+                    del names[victim % len(names)]
+        ops = [{"op": "setup", "path": src, **sd}]
         cur, cur_kind = src, skind
         hop = 0
         for _ in range(rng.weighted([(1, 4), (2, 4), (3, 2)])):
